@@ -218,6 +218,17 @@ fn free_scan_take() -> Vec<(usize, usize, usize)> {
 }
 
 type SetFail = unsafe extern "C" fn(i64);
+fn set_mprotect_fail_at(k: i64) -> bool {
+    unsafe {
+        let sym = libc::dlsym(libc::RTLD_DEFAULT, b"verif_mprotect_fail_at\0".as_ptr() as *const _);
+        if sym.is_null() {
+            return false;
+        }
+        let f: SetFail = std::mem::transmute(sym);
+        f(k);
+        true
+    }
+}
 fn set_fail_from(k: i64) -> bool {
     unsafe {
         let sym = libc::dlsym(libc::RTLD_DEFAULT, b"verif_mlock_fail_from\0".as_ptr() as *const _);
@@ -437,6 +448,8 @@ fn run<A: Cont>(len: usize, toks: &[&str]) -> String {
                         Err(_) => "err".into(),
                     }
                 }
+                // mpfail:K — the K-th mprotect request from here on (one request only) is refused with ENOMEM
+                "mpfail" => { if set_mprotect_fail_at(arg.parse().unwrap_or(-1)) { "ok".into() } else { "noshim".into() } }
                 "failfrom" => { if set_fail_from(arg.parse().unwrap_or(-1)) { "ok".into() } else { "noshim".into() } }
                 "wprobe" | "rprobe" => {
                     if idx >= slots.len() { return "noslot".into(); }
